@@ -198,16 +198,18 @@ theorem mapImplItems_impl7_inh (a d u g tr s items : T) :
     · next l => exact absurd rfl (hne a d u g tr s l)
     · rfl
 
-/-- a helper impl of inherent mode: the member with the generated helper path as its trait, the row prepended to the
-    path's arguments, the helper trait's name, and the items' visibilities removed -/
+/-- a helper impl of inherent mode: the member with the helper trait as its trait — the SINGLE segment
+    `_<last-segment identifier of the generated path><idx>` with no leading `::` and none of the path's leading segments
+    (disjoint.rs: `*trait_ = path.clone().into()`), the row prepended to the last segment's arguments —, and the items'
+    visibilities removed -/
 theorem helperImpl_inherent_inv_inh {idx : Nat} {p0 id : T} {args0 : List T} {idents : List (BKey × String)}
     {row : List (Option T)} {member h : T}
     (hl : lastSegOf p0 = some (.node "PathSegment" [] [id, angle args0]))
     (hh : helperImpl idx (some p0) idents row member = some h) :
     ∃ x a d u g tr s items, id = .node "Ident" [x] [] ∧ member = .node "ItemImpl" [] [a, d, u, g, tr, s, items] ∧
       h = .node "ItemImpl" [] [a, d, u, g,
-        tSome (.node "Tuple" [] [tNone, pathNode (pathLead p0) (initSegsOf p0 ++
-          [.node "PathSegment" [] [tIdent (genIdentStr x idx), angle (rowArgs idents row ++ args0)]])]),
+        tSome (.node "Tuple" [] [tNone, pathNode noLead
+          [.node "PathSegment" [] [tIdent (genIdentStr x idx), angle (rowArgs idents row ++ args0)]]]),
         s, visErased_inh items] := by
   cases h7 : isImpl7_inh member with
   | false =>
@@ -242,8 +244,9 @@ theorem typeAsPath_inv_inh {st p : T} (h : typeAsPath st = some p) : st = .node 
   · cases h; rfl
   · cases h
 
-/-- `helperImpls` in inherent mode, read back: the helper path is the first block's self type with the arguments
-    `inhArgs_inh`, and every member is passed through `helperImpl` with that path -/
+/-- `helperImpls` in inherent mode, read back: the path handed to `helperImpl` is the first block's self-type path with the
+    arguments `inhArgs_inh` on its last segment (leading segments and leading `::` as the user wrote them — `helperImpl`
+    then uses its LAST segment only), and every member is passed through `helperImpl` with that path -/
 theorem helperImpls_inherent_inv_inh {idx : Nat} {g : T × ABG × List Blk} {hs : List T} {first : Blk} {rest : List Blk}
     (hg : g.2.2 = first :: rest) (hnone : implTraitPath first.item = none) (hh : helperImpls idx g = some hs) :
     ∃ s gen p sid, implSelfTy first.item = some s ∧ implGenerics first.item = some gen ∧
@@ -870,12 +873,24 @@ def firstNamed_inh (g : T × ABG × List Blk) : Bool :=
 theorem inhArgs_congr_inh {g1 g2 : T} (h : genericsParams g1 = genericsParams g2) : inhArgs_inh g1 = inhArgs_inh g2 := by
   simp [inhArgs_inh, lifetimeParamIdents, otherParamIdents, h]
 
+/-- `selfTraitIdent` read back: the self type is an unqualified path type (no `<T as Tr>::` prefix) whose LAST segment
+    is named `x`; the path may have any number of leading segments and a leading `::` (helper_trait.rs: the helper trait
+    is named by the last segment only) -/
 theorem selfTraitIdent_inv_inh {st : T} {x : String} (h : selfTraitIdent st = some x) :
-    ∃ a, st = .node "Type::Path" [] [tNone, pathNode noLead [.node "PathSegment" [] [.node "Ident" [x] [], a]]] := by
+    ∃ p a, st = .node "Type::Path" [] [tNone, p] ∧
+      lastSegOf p = some (.node "PathSegment" [] [.node "Ident" [x] [], a]) := by
   unfold selfTraitIdent at h
   split at h
-  · cases h; exact ⟨_, rfl⟩
+  · next p =>
+    split at h
+    · next x' a heq => cases h; exact ⟨p, a, rfl, heq⟩
+    · cases h
   · cases h
+
+theorem selfTraitIdent_of_last_inh {p : T} {x : String} {a : T}
+    (h : lastSegOf p = some (.node "PathSegment" [] [.node "Ident" [x] [], a])) :
+    selfTraitIdent (.node "Type::Path" [] [tNone, p]) = some x := by
+  simp [selfTraitIdent, tNone, h]
 
 /-- declared parameters of an `ItemTrait` / the name of the trait, read positionally -/
 def traitParams_inh (tr : T) : List T := genericsParams (kid tr 6)
@@ -885,6 +900,11 @@ theorem xsegArgs_named_inh (lc : T) (xs : List T) (name : String) (args : List T
     XOK.segArgs (XOK.lastSeg (pathNode lc (xs ++ [.node "PathSegment" [] [tIdent name, angle args]]))) = args ∧
     XOK.segIdent (XOK.lastSeg (pathNode lc (xs ++ [.node "PathSegment" [] [tIdent name, angle args]]))) = name := by
   simp [XOK.lastSeg, segsOf, pathNode, tList, kid, kids, lastOf, XOK.segArgs, XOK.segIdent, angle, kind, atoms, tIdent]
+
+theorem xsegArgs_single_inh (lc : T) (name : String) (args : List T) :
+    XOK.segArgs (XOK.lastSeg (pathNode lc [.node "PathSegment" [] [tIdent name, angle args]])) = args ∧
+    XOK.segIdent (XOK.lastSeg (pathNode lc [.node "PathSegment" [] [tIdent name, angle args]])) = name :=
+  xsegArgs_named_inh lc [] name args
 
 theorem traitPathOf_impl_inh (a d u g s items P : T) :
     traitPathOf (.node "ItemImpl" [] [a, d, u, g, tSome (.node "Tuple" [] [tNone, P]), s, items]) = some P := by
@@ -917,12 +937,12 @@ theorem helper_params_aligned_inh (idx : Nat) (g : T × ABG × List Blk) (tr : T
   obtain ⟨rfl, hps, rfl, rfl⟩ := hgen
   injection hps with _ _ hps
   subst hps
-  obtain ⟨a0, hsp⟩ := selfTraitIdent_inv_inh hx'
+  obtain ⟨p', a0, hsp, hlp⟩ := selfTraitIdent_inv_inh hx'
   injection hsp with _ _ hsp
   simp only [List.cons.injEq, and_true] at hsp
   obtain ⟨rfl, rfl⟩ := hsp
   have hxx : x = x' := by
-    simp [lastSegIdentOf, lastSegOf, pathNode, tList, pathSegments] at hx
+    simp only [lastSegIdentOf, hlp, Option.some.injEq] at hx
     exact hx.symm
   subst hxx
   have hnone : implTraitPath first.item = none := by
@@ -970,14 +990,13 @@ theorem helper_params_aligned_inh (idx : Nat) (g : T × ABG × List Blk) (tr : T
     obtain ⟨s, gen0, p, sid, hs1, hgen0, hs2, ⟨a1, hl1⟩, hall, rfl⟩ := helperImpls_inherent_inv_inh hg hnone hh
     rw [hgen'] at hgen0
     cases hgen0
-    have hs3 : s = T.node "Type::Path" [] [tNone, pathNode noLead [T.node "PathSegment" [] [T.node "Ident" [x] [], a0]]] := by
+    have hs3 : s = T.node "Type::Path" [] [tNone, sp] := by
       rw [hitem] at hs1; simpa [implSelfTy] using hs1.symm
     rw [hs2] at hs3
     injection hs3 with _ _ hs3
     simp only [List.cons.injEq, and_true, true_and] at hs3
     subst hs3
-    simp only [lastSegOf, pathNode, tList, pathSegments, List.reverse_cons, List.reverse_nil, List.nil_append,
-      List.head?_cons, Option.some.injEq] at hl1
+    rw [hlp, Option.some.injEq] at hl1
     injection hl1 with _ _ hl1
     simp only [List.cons.injEq, and_true] at hl1
     obtain ⟨rfl, rfl⟩ := hl1
@@ -991,8 +1010,8 @@ theorem helper_params_aligned_inh (idx : Nat) (g : T × ABG × List Blk) (tr : T
     obtain ⟨x2, am, dm, um, gm, trm, sm, itm, hid2, hmem2, rfl⟩ :=
       helperImpl_inherent_inv_inh (lastSegOf_pathNode_inh _ _ _) hhi
     cases hid2
-    refine ⟨_, traitPathOf_impl_inh _ _ _ _ _ _ _, (xsegArgs_named_inh _ _ _ _).2, ?_⟩
-    rw [(xsegArgs_named_inh _ _ _ _).1]
+    refine ⟨_, traitPathOf_impl_inh _ _ _ _ _ _ _, (xsegArgs_single_inh _ _ _).2, ?_⟩
+    rw [(xsegArgs_single_inh _ _ _).1]
     unfold helperTraitParams_inh
     refine refAligned_of_parts_inh _ _ _ _ _ (rowArgs g.2.1.idents mr.2) _ hLt hKt hOt hAt
       (rowArgs_nonLifetime_inh _ _) hBt hKn (rowArgs_length _ _ hrow) hLA hOB _ ?_
@@ -1291,13 +1310,13 @@ theorem checkHelperInh_of_helperImpl_inh {idx : Nat} {p0 : T} {x : String} {args
   have hca := checkArgs_rowArgs θ idents row hp hw
   unfold checkHelperInh_inh
   rw [traitPathOf_impl_inh]
-  simp only [(xsegArgs_named_inh _ _ _ _).1, (xsegArgs_named_inh _ _ _ _).2, keysOf_length]
+  simp only [(xsegArgs_single_inh _ _ _).1, (xsegArgs_single_inh _ _ _).2, keysOf_length]
   have t1 : (rowArgs idents row ++ args0).take idents.length = rowArgs idents row := List.take_left' hargsLen
   have t2 : (rowArgs idents row ++ args0).drop idents.length = args0 := List.drop_left' hargsLen
   rw [t1, t2, hfix, hca, hargsLen]
   have hk3 : kid (T.node "ItemImpl" [] [a, d, u, g,
-      tSome (T.node "Tuple" [] [tNone, pathNode (pathLead p0) (initSegsOf p0 ++
-        [T.node "PathSegment" [] [tIdent (genIdentStr x idx), angle (rowArgs idents row ++ args0)]])]),
+      tSome (T.node "Tuple" [] [tNone, pathNode noLead
+        [T.node "PathSegment" [] [tIdent (genIdentStr x idx), angle (rowArgs idents row ++ args0)]]]),
       s, visErased_inh items]) 3 = g := by simp [kid, kids]
   rw [hk3]
   have hsc' : argsScoped_inh (genericsParams g) args0 = true := by simpa [implGenerics] using hsc
@@ -1418,33 +1437,32 @@ theorem expandOKInh_of_expand_inh (idx : Nat) (g : T × ABG × List Blk) (tr : T
     | some p => rw [hp] at hinh; cases hinh
   have hplen : g.2.1.payloads.length = g.2.2.length := by
     rw [hg]; exact payloads_length g.2.1 _ hne (fun kr hkr => hal kr hkr)
-  -- the self type is a single named segment (the helper trait could be generated)
+  -- the self type is an unqualified path whose last segment is named (the helper trait could be generated)
   rw [hfirst, hitem] at ht
   obtain ⟨_, _, _, _, _, _, _, _, st', _, x', _, _, _, heq, hx', _, _⟩ := helperTraitOfInherent_ok_inv_inh ht
   injection heq with _ _ heq
   simp only [List.cons.injEq, and_true, tList] at heq
   obtain ⟨_, _, _, _, _, hst', _⟩ := heq
   subst hst'
-  obtain ⟨a0, hsp⟩ := selfTraitIdent_inv_inh hx'
+  obtain ⟨p', a0, hsp, hlp⟩ := selfTraitIdent_inv_inh hx'
   injection hsp with _ _ hsp
   simp only [List.cons.injEq, and_true] at hsp
   obtain ⟨rfl, rfl⟩ := hsp
   have hxx : x = x' := by
-    simp [lastSegIdentOf, lastSegOf, pathNode, tList, pathSegments] at hx
+    simp only [lastSegIdentOf, hlp, Option.some.injEq] at hx
     exact hx.symm
   subst hxx
   -- the helper impls
   obtain ⟨s, gen, p, sid, hs1, hgen, hs2, ⟨a1, hl1⟩, hall, rfl⟩ := helperImpls_inherent_inv_inh hg hnone hh
   have hgen' : gen = T.node "Generics" [] [lt, tList ps, gt, wc] := by
     rw [hitem] at hgen; simpa [implGenerics] using hgen.symm
-  have hs3 : s = T.node "Type::Path" [] [tNone, pathNode noLead [T.node "PathSegment" [] [T.node "Ident" [x] [], a0]]] := by
+  have hs3 : s = T.node "Type::Path" [] [tNone, sp] := by
     rw [hitem] at hs1; simpa [implSelfTy] using hs1.symm
   rw [hs2] at hs3
   injection hs3 with _ _ hs3
   simp only [List.cons.injEq, and_true, true_and] at hs3
   subst hs3
-  simp only [lastSegOf, pathNode, tList, pathSegments, List.reverse_cons, List.reverse_nil, List.nil_append,
-    List.head?_cons, Option.some.injEq] at hl1
+  rw [hlp, Option.some.injEq] at hl1
   injection hl1 with _ _ hl1
   simp only [List.cons.injEq, and_true] at hl1
   obtain ⟨rfl, rfl⟩ := hl1
@@ -1481,8 +1499,7 @@ theorem expandOKInh_of_expand_inh (idx : Nat) (g : T × ABG × List Blk) (tr : T
   have hnm := (helperRef_read_inh (genIdentStr x idx) g.2.1.idents (inhArgs_inh gen)).1
   rw [hnm] at hname ⊢
   have hall2 : (List.filterMap id (List.map (fun mr => helperImpl idx
-      (some (pathNode (pathLead (pathNode noLead [T.node "PathSegment" [] [T.node "Ident" [x] [], a0]]))
-        (initSegsOf (pathNode noLead [T.node "PathSegment" [] [T.node "Ident" [x] [], a0]]) ++
+      (some (pathNode (pathLead p) (initSegsOf p ++
           [T.node "PathSegment" [] [T.node "Ident" [x] [], angle (inhArgs_inh gen)]])))
       g.2.1.idents mr.2 mr.1) ((g.2.2.map (·.item)).zip g.2.1.payloads))).all (fun h => match traitPathOf h with
         | some hp => refAligned_inh g.2.1.idents.length (traitParams_inh tr) (XOK.segArgs (XOK.lastSeg hp))
@@ -1494,7 +1511,7 @@ theorem expandOKInh_of_expand_inh (idx : Nat) (g : T × ABG × List Blk) (tr : T
   have hself : kid (T.node "ItemImpl" [] [a, d, u,
       T.node "Generics" [] [lt, tList params, gt, mkWhere (assocBoundPredicates g.2.1
         (helperRef (genIdentStr x idx) g.2.1.idents (inhArgs_inh gen)))],
-      trr, T.node "Type::Path" [] [tNone, pathNode noLead [T.node "PathSegment" [] [T.node "Ident" [x] [], a0]]],
+      trr, T.node "Type::Path" [] [tNone, p],
       tList finals]) 5 = kid g.1 1 := by
     rw [hgid, hitem]; simp [mkHdr, implSelfTy, kid, kids]
   rw [mainSelfArgs_helperRef_inh, hal2, hchk, ← hname, hlen, hall2, hmain, hself]
